@@ -127,37 +127,43 @@ CLAIMS = {
          "and free-solver model. Not covered: the CPLEX models (CPLEX is not installed; no stand-in was built) and their 'all minimisers' set.",
          "Trusted: Coq kernel + vm_compute; model tied by correspondence; harness (captures the program by wrapping LpProblem.solve); CBC's optimality judged per run only.",
          "DESIGN.md section 4, C05"),
- "C08": ("Coq model of the jitted BioConsert kernels + verified local-optimality checker evaluated on every returned ranking",
-         "PARTIAL proof. Machine-checked: soundness of the local-optimality test (it bounds the score of EVERY single-element move into every "
-         "existing bucket and into a new bucket at every position of the ranking denoted by the vector), and the prefix-sum lemma of the "
-         "difference array. Not a theorem in this version: 'the model's local search returns a local optimum'. By correspondence: the model of "
-         "_compute_delta_costs / the two scans / _change_bucket / _add_bucket / the sweep loop returns exactly the vector and the delta the "
-         "jitted code returns, from every tie/order pattern of length <= 4 and random vectors up to 8 elements; at API level the model predicts "
-         "the returned rankings and score for 7 starting configurations; every returned ranking passes the checker in Coq.",
-         "Trusted: Coq kernel + vm_compute; model; harness; numba-compiled kernels run as users run them (JIT on); threshold 0.001 = 8 units on the 1/8000 grid.",
+ "C08": ("Coq model of the jitted BioConsert kernels proved correct (difference arrays, scans, moves, sweep loop, termination) + sound local-optimality test; model = code by vm_compute correspondence",
+         "Machine-checked for all tables, sizes and departure vectors: the arrays filled by _compute_delta_costs are the difference arrays of the "
+         "true score variations; each search returns the first improving bucket / new-bucket position (right then left) with the true variation, "
+         "or -1 exactly when no move improves by more than the threshold; _change_bucket / _add_bucket realise the intended move and keep the "
+         "bucket numbering dense; every accepted move lowers the true score by the recorded delta; the loop terminates (fuel bound proved and "
+         "used by the judges); its result passes local_opt, which is sound: no single-element move into an existing bucket or a new bucket at any "
+         "position improves the returned ranking by more than 0.001 (C08_bio_one, C08_bioconsert_local_optimum). Tie to the code: the model "
+         "returns exactly the vector and delta of the jitted _improve_one_ranking from every tie/order pattern of length <= 4 and random vectors "
+         "up to 8 elements, and predicts the API's consensus and score under 7 starter configurations; every returned ranking is also run "
+         "through local_opt in Coq.",
+         "Trusted: Coq kernel + vm_compute; hand-written model tied by correspondence; harness; numba's float64 arithmetic taken as exact on the 1/8000 grid.",
          "DESIGN.md section 4, C08"),
- "C09": ("Coq model of departures / selection + per-run judgement in Coq of 'score <= every departure'",
-         "PARTIAL proof. Machine-checked: the selection step reports the minimum over the departures' results and PickAPerm's answer is the "
-         "minimum over the (unified) inputs. Per run, in Coq: the departure vectors are recomputed by the model in the id space of the input "
-         "dataset (unified inputs + all-tied, or the starters' own consensus) and every returned ranking scores at most each of them; all "
-         "returned rankings share the reported score; starters Borda, Copeland, PickAPerm, BioCo, two and three at once.",
-         "Trusted: as C08; monotonicity of the local search is not a theorem.",
+ "C09": ("Coq theorem on the model of BioConsert (monotone local search + minimum selection) + vm_compute correspondence of departures and results",
+         "Machine-checked: the score reached from a departure vector is its true score and is at most the departure's (every accepted move "
+         "lowers the true score); the selection reports the minimum and returns only rankings with that score; hence the reported score, shared "
+         "by all returned rankings, is at most the score of EVERY departure (C09_never_worse); the model's departures are dense vectors; "
+         "PickAPerm's answer is the minimum over the (unified) inputs. Per run, in Coq: the departure vectors are recomputed by the model in the id "
+         "space of the input dataset (unified inputs + all-tied, or the starters' own consensus), the model's consensus and score = the library's, "
+         "and every returned ranking scores at most each departure; starters Borda, Copeland, PickAPerm, BioCo, two and three at once.",
+         "Trusted: as C08.",
          "DESIGN.md section 4, C09"),
  "C04": ("Per-run judgement in Coq of every reported score against kemeny_spec + theorems for the pieces that are pure",
          "Machine-checked: the score computed on demand by the Consensus object (model of get_kemeny_score) is the definition (C01 main theorem); "
          "the objective value reported by the exact algorithm is the score of the ranking its decoder returns, on every feasible point "
          "(C04_solver_objective); PickAPerm's reported minimum is the score of every returned ranking; kemeny_spec >= 0; the cost table sums to "
-         "the score. PARTIAL for one producer: BioConsert's bookkeeping (initial score + accumulated deltas) is judged per run only. Per run, in Coq, for 13 algorithm configurations and both values of return_at_most_one_ranking: kemeny_score, "
+         "the score; BioConsert's bookkeeping (initial score + accumulated deltas) is the true score of every vector it returns "
+         "(C04_bioconsert_bookkeeping). Per run, in Coq, for 13 algorithm configurations and both values of return_at_most_one_ranking: kemeny_score, "
          "features[KEMENY_SCORE] and description() give a number equal (1e-6) to kemeny_spec of EVERY returned ranking, never absent or "
          "negative; lazily computed scores equal the model of the Kemeny routine on the first ranking.",
          "Trusted: Coq kernel + vm_compute; model; harness; CBC objective value read through PuLP.",
          "DESIGN.md section 4, C04"),
  "C03": ("Coq well-formedness theorems for the modelled algorithms + per-run judgement in Coq of every returned consensus",
-         "PARTIAL proof. Machine-checked for all inputs: Borda (both variants), Copeland, KwikSort (every pivot script) return a partition of "
+         "Machine-checked for all inputs: Borda (both variants), Copeland, KwikSort (every pivot script) return a partition of "
          "the universe into non-empty buckets; unified rankings (PickAPerm's candidates) rank exactly the universe; decoding a dense bucket-id "
          "vector gives non-empty disjoint buckets; the defeat-count decoder of the exact algorithm returns non-empty disjoint buckets over all ids on "
-         "every feasible point of its program; the ParCons concatenation ranks exactly the universe given well-formed sub-answers. Not a theorem in "
-         "this version: BioConsert's dictionary decoder on the vectors its local search produces. Per run, judged in Coq on typed names: 15 configurations x datasets over ints, "
+         "every feasible point of its program; the ParCons concatenation ranks exactly the universe given well-formed sub-answers; BioConsert's "
+         "local search keeps its vectors dense and its decoder turns a dense vector into non-empty disjoint buckets over the universe (C03_bioconsert_wf). Per run, judged in Coq on typed names: 15 configurations x datasets over ints, "
          "colliding ints, letters, digit strings, mixed names, duplicates, empty rankings, one element, both values of "
          "return_at_most_one_ranking: >= 1 ranking (exactly 1 when asked), non-empty disjoint buckets, union = universe with types preserved, "
          "positions/domain/size consistent.",
